@@ -1328,26 +1328,41 @@ Proof.
       inversion H; subst. eapply Skip; eauto. intros; discriminate.
 Qed.
 
-(* what one call of the interface's emit closure does to the wire: the datagram appears exactly
-   once when the closure answers Ok and the packet fits the link, never when it answers Err (then
-   at most a neighbor-discovery frame is sent), and never twice *)
+(* what one call of the interface's emit closure does to the wire: when it answers Ok the datagram
+   is transmitted exactly once if it fits the link, its first fragment is transmitted and the
+   datagram parked in the fragmenter if it is an IPv4 datagram above the MTU that fits the
+   fragmentation buffer (the fragmenter is then free: a busy fragmenter makes the closure answer
+   EMIT_BUSY, never "Ok and dropped"), and it is dropped only when it can never be sent; when it
+   answers Err nothing of the datagram is transmitted (at most a neighbor-discovery frame) and
+   the fragmenter is untouched *)
 Theorem c09_interface_emit : forall ev p st na res st' na' res' c,
   if_respond ev p (st, na, res) = Ok ((st', na', res'), c) ->
   (c = EMIT_OK ->
-     (pkt_total_len p <= if_mtu st /\ if_out st' = if_out st ++ [FO_Pkt p]) \/
+     (pkt_total_len p <= if_mtu st /\ if_out st' = if_out st ++ [FO_Pkt p] /\ if_frag st' = if_frag st) \/
+     (pkt_total_len p > if_mtu st /\ a_ver (p_dst p) = 4 /\ pkt_total_len p <= cfg_FRAGMENTATION_BUFFER_SIZE /\
+      if_out st' = if_out st ++ [FO_Frag 0 (if_max_frag st) true] /\
+      if_frag st' = Some (FO_Pkt p, pkt_total_len p, if_max_frag st + wipv4_HEADER_LEN)) \/
      (pkt_total_len p > if_mtu st /\
-      (if_out st' = if_out st \/ if_out st' = if_out st ++ [FO_Pkt p]))) /\
+      (a_ver (p_dst p) <> 4 \/ cfg_FRAGMENTATION_BUFFER_SIZE < pkt_total_len p) /\
+      if_out st' = if_out st /\ if_frag st' = if_frag st)) /\
   (c <> EMIT_OK ->
-     if_out st' = if_out st \/ exists k a, if_out st' = if_out st ++ [FO_Aux k a]).
+     if_frag st' = if_frag st /\
+     (if_out st' = if_out st \/ exists k a, if_out st' = if_out st ++ [FO_Aux k a])).
 Proof.
   intros ev p st na res st' na' res' c H. unfold if_respond in H.
+  destruct ((a_ver (p_dst p) =? 4) && (pkt_total_len p >? if_mtu st) && negb (if_frag_finished st)) eqn:EG.
+  { inversion H; subst. split; [discriminate|auto]. }
+  assert (Guard : a_ver (p_dst p) = 4 -> if_mtu st < pkt_total_len p -> if_frag_finished st = true).
+  { intros G1 G2. destruct (if_frag_finished st) eqn:EF; [reflexivity|]. exfalso.
+    rewrite (proj2 (Z.eqb_eq _ _) G1), Z.gtb_ltb, (proj2 (Z.ltb_lt _ _) G2) in EG. discriminate EG. }
+  clear EG.
   destruct (negb (if_has_token st)).
   { inversion H; subst. split; [discriminate|auto]. }
   unfold if_dispatch_ip in H.
   destruct (addr_is_unspecified (p_dst p)); [discriminate|].
   assert (LH : forall st1 ok, if_lookup_hardware_addr ev st (p_dst p) = (st1, ok) ->
-              (ok = true -> st1 = st) /\
-              (if_out st1 = if_out st \/ exists k a, if_out st1 = if_out st ++ [FO_Aux k a]) /\ if_mtu st1 = if_mtu st).
+              (ok = true -> st1 = st) /\ if_frag st1 = if_frag st /\
+              (if_out st1 = if_out st \/ exists k a, if_out st1 = if_out st ++ [FO_Aux k a])).
   { intros st1 ok L. unfold if_lookup_hardware_addr in L.
     destruct (e_is_broadcast ev (p_dst p)); [inversion L; subst; auto|].
     destruct (e_is_multicast ev (p_dst p)); [inversion L; subst; auto|].
@@ -1357,21 +1372,114 @@ Proof.
     destruct (a_ver nh =? 4).
     - destruct (e_src_v4 ev nh); inversion L; subst; (split; [discriminate|]); cbn; eauto.
     - inversion L; subst. split; [discriminate|]. cbn; eauto. }
+  assert (Core : forall st1, st1 = st ->
+    (if pkt_total_len p >? if_mtu st1
+     then if a_ver (p_dst p) =? 4
+          then if cfg_FRAGMENTATION_BUFFER_SIZE <? pkt_total_len p then Ok (st1, true)
+               else if negb (if_frag_finished st1) then Ok (st1, true)
+               else Ok (if_set_frag (if_consume st1 (FO_Frag 0 (if_max_frag st1) true))
+                          (Some (FO_Pkt p, pkt_total_len p, if_max_frag st1 + wipv4_HEADER_LEN)), true)
+          else Ok (st1, true)
+     else Ok (if_consume st1 (FO_Pkt p), true)) = Ok (st', true) ->
+    (pkt_total_len p <= if_mtu st /\ if_out st' = if_out st ++ [FO_Pkt p] /\ if_frag st' = if_frag st) \/
+    (pkt_total_len p > if_mtu st /\ a_ver (p_dst p) = 4 /\ pkt_total_len p <= cfg_FRAGMENTATION_BUFFER_SIZE /\
+     if_out st' = if_out st ++ [FO_Frag 0 (if_max_frag st) true] /\
+     if_frag st' = Some (FO_Pkt p, pkt_total_len p, if_max_frag st + wipv4_HEADER_LEN)) \/
+    (pkt_total_len p > if_mtu st /\
+     (a_ver (p_dst p) <> 4 \/ cfg_FRAGMENTATION_BUFFER_SIZE < pkt_total_len p) /\
+     if_out st' = if_out st /\ if_frag st' = if_frag st)).
+  { intros st1 -> HC.
+    destruct (pkt_total_len p >? if_mtu st) eqn:EM; rewrite Z.gtb_ltb in EM; bools.
+    - destruct (a_ver (p_dst p) =? 4) eqn:EV; bools.
+      + destruct (cfg_FRAGMENTATION_BUFFER_SIZE <? pkt_total_len p) eqn:EB; bools.
+        * inversion HC; subst. right; right. splits; auto; lia.
+        * (* the guard of the closure: the fragmenter is free here *)
+          assert (FF : if_frag_finished st = true) by (apply Guard; [assumption|lia]).
+          rewrite FF in HC. cbn [negb] in HC. inversion HC; subst.
+          right; left. splits; auto; try lia.
+      + inversion HC; subst. right; right. splits; auto; try lia.
+    - inversion HC; subst. left. splits; auto; lia. }
   destruct (if_eth st) eqn:Eeth.
   - destruct (if_lookup_hardware_addr ev st (p_dst p)) as [st1 ok] eqn:EL.
     destruct (LH st1 ok eq_refl) as (L1 & L2 & L3).
     destruct ok; cbn [negb] in H.
-    + rewrite (L1 eq_refl) in *.
-      destruct (pkt_total_len p >? if_mtu st) eqn:EM; rewrite Z.gtb_ltb in EM; bools.
-      * destruct ((a_ver (p_dst p) =? 4) && (pkt_total_len p <=? cfg_FRAGMENTATION_BUFFER_SIZE));
-          inversion H; subst; (split; [intros _; right; split; [lia|cbn; auto]|intros X; contradiction X; reflexivity]).
-      * inversion H; subst. split; [intros _; left; split; [lia|reflexivity]|intros X; contradiction X; reflexivity].
-    + inversion H; subst. split; [discriminate|intros _; exact L2].
+    + match type of H with obind ?x _ = _ => destruct x as [[st2 ok2]| |] eqn:EX; cbn [obind] in H; [|discriminate H..] end.
+      assert (ok2 = true).
+      { destruct (pkt_total_len p >? if_mtu st1); [destruct (a_ver (p_dst p) =? 4);
+          [destruct (cfg_FRAGMENTATION_BUFFER_SIZE <? pkt_total_len p); [|destruct (negb (if_frag_finished st1))]|]|];
+          inversion EX; reflexivity. }
+      subst ok2. inversion H; subst. split; [intros _|intros X; contradiction X; reflexivity].
+      apply (Core st1 (L1 eq_refl)). exact EX.
+    + inversion H; subst. split; [discriminate|intros _; auto].
   - cbn [negb] in H.
-    destruct (pkt_total_len p >? if_mtu st) eqn:EM; rewrite Z.gtb_ltb in EM; bools.
-    * destruct ((a_ver (p_dst p) =? 4) && (pkt_total_len p <=? cfg_FRAGMENTATION_BUFFER_SIZE));
-        inversion H; subst; (split; [intros _; right; split; [lia|cbn; auto]|intros X; contradiction X; reflexivity]).
-    * inversion H; subst. split; [intros _; left; split; [lia|reflexivity]|intros X; contradiction X; reflexivity].
+    match type of H with obind ?x _ = _ => destruct x as [[st2 ok2]| |] eqn:EX; cbn [obind] in H; [|discriminate H..] end.
+    assert (ok2 = true).
+    { destruct (pkt_total_len p >? if_mtu st); [destruct (a_ver (p_dst p) =? 4);
+        [destruct (cfg_FRAGMENTATION_BUFFER_SIZE <? pkt_total_len p); [|destruct (negb (if_frag_finished st))]|]|];
+        inversion EX; reflexivity. }
+    subst ok2. inversion H; subst. split; [intros _|intros X; contradiction X; reflexivity].
+    apply (Core st eq_refl). exact EX.
+Qed.
+
+(* the remaining fragments of a parked datagram: ipv4_egress sends them one per call, contiguous
+   8-aligned pieces, and reports the datagram exactly once, with the last one *)
+Fixpoint frag_train (fuel : nat) (mf len sent : Z) : list frame_out :=
+  match fuel with
+  | O => []
+  | S k =>
+      if sent <? len then
+        let n := Z.min (len - sent) mf in
+        FO_Frag (sent - wipv4_HEADER_LEN) n (negb (len - sent =? n)) :: frag_train k mf len (sent + n)
+      else []
+  end.
+
+Fixpoint ipv4_egress_n (k : nat) (st : iface) : iface :=
+  match k with O => st | S k' => ipv4_egress_n k' (if_ipv4_egress st) end.
+
+Theorem c09_fragment_train_completes : forall fuel st f len sent,
+  if_frag st = Some (f, len, sent) -> if_budget st = None -> 0 < if_max_frag st ->
+  sent < len -> (Z.to_nat (len - sent) <= fuel)%nat ->
+  let st' := ipv4_egress_n fuel st in
+  if_frag_finished st' = true /\
+  if_out st' = if_out st ++ frag_train fuel (if_max_frag st) len sent ++ [f].
+Proof.
+  induction fuel as [|fuel IH]; intros st f len sent HF HB HM HS HFu; [lia|].
+  cbn [ipv4_egress_n frag_train].
+  assert (Hlt : (sent <? len) = true) by (apply Z.ltb_lt; lia). rewrite Hlt.
+  set (n := Z.min (len - sent) (if_max_frag st)).
+  assert (Hn : 0 < n) by (unfold n; lia).
+  (* one step *)
+  assert (Step : let st1 := if_ipv4_egress st in
+            if_budget st1 = None /\ if_max_frag st1 = if_max_frag st /\
+            if_frag st1 = Some (f, len, sent + n) /\
+            if_out st1 = if_out st ++ FO_Frag (sent - wipv4_HEADER_LEN) n (negb (len - sent =? n))
+                                       :: (if len - sent =? n then [f] else [])).
+  { assert (NF : if_frag_finished st = false).
+    { unfold if_frag_finished. rewrite HF. apply Z.eqb_neq. lia. }
+    assert (TK : if_has_token st = true) by (unfold if_has_token; rewrite HB; reflexivity).
+    unfold if_ipv4_egress. rewrite NF, HF, Hlt, TK. cbn [andb]. fold n.
+    destruct (len - sent =? n) eqn:EL; cbn [negb];
+      unfold if_report, if_set_frag, if_consume, if_set_out, if_set_budget, if_max_frag; cbn; rewrite HB;
+      splits; auto. rewrite <- app_assoc. reflexivity. }
+  destruct Step as (B1 & M1 & F1 & O1). set (st1 := if_ipv4_egress st) in *.
+  destruct (len - sent =? n) eqn:EL; bools.
+  - (* that was the last fragment *)
+    assert (Fin : forall k s, if_frag s = Some (f, len, len) -> ipv4_egress_n k s = ipv4_egress_n k s) by auto.
+    assert (Idle : forall k s, if_frag_finished s = true ->
+              if_frag_finished (ipv4_egress_n k s) = true /\ if_out (ipv4_egress_n k s) = if_out s).
+    { induction k; intros s Hs; [auto|]. cbn [ipv4_egress_n].
+      assert (E1 : if_frag_finished (if_ipv4_egress s) = true /\ if_out (if_ipv4_egress s) = if_out s).
+      { unfold if_ipv4_egress. rewrite Hs. cbn. auto. }
+      destruct E1 as (E1 & E2). destruct (IHk _ E1) as (I1 & I2). split; [exact I1|congruence]. }
+    assert (FF : if_frag_finished st1 = true).
+    { unfold if_frag_finished. rewrite F1. apply Z.eqb_eq. lia. }
+    destruct (Idle fuel st1 FF) as (I1 & I2).
+    split; [exact I1|]. rewrite I2, O1.
+    assert (TE : frag_train fuel (if_max_frag st) len (sent + n) = []).
+    { destruct fuel; [reflexivity|]. cbn. destruct (sent + n <? len) eqn:E2; bools; [lia|reflexivity]. }
+    rewrite TE. reflexivity.
+  - destruct (IH st1 f len (sent + n) F1 B1 ltac:(rewrite M1; exact HM) ltac:(lia) ltac:(lia)) as (I1 & I2).
+    split; [exact I1|]. rewrite I2, O1, M1. rewrite <- app_assoc. reflexivity.
 Qed.
 
 (* boundaries: what has been handed out is, position by position, what was stored *)
